@@ -7,7 +7,7 @@
     of [BPut]/[BRollback r]; [ops_valid n ops]: every rollback target is at most the
     current revision; [ops_above r ops]: no rollback below revision [r]. *)
 From Coq Require Import NArith List Bool Arith Permutation Sorting.Sorted.
-From Verif Require Import StateBuf.Model StateBuf.BufProofs StateBuf.Db StateBuf.DbProofs StateBuf.DbRevert StateBuf.DbSafe.
+From Verif Require Import StateBuf.Model StateBuf.BufProofs StateBuf.Db StateBuf.DbProofs StateBuf.DbRevert StateBuf.DbSafe StateBuf.DbPtr.
 Import ListNotations.
 
 (** The index invariant holds initially and after every operation of every valid run, and
@@ -147,6 +147,20 @@ Theorem C12_fresh_handle_unused : forall d a d',
   exists ah, nth_error (d_ah d') (length (d_ah d)) = Some ah /\ ptr_unused d' (ah_ptr ah) /\ d_buf d' = d_buf d.
 Proof. exact fresh_handle_unused. Qed.
 Print Assumptions C12_fresh_handle_unused.
+
+(** The hypothesis of C12_fresh_handle_unused is an invariant of every run ([pbound]: every
+    referenced State object was allocated before d_nptr), so: in every state reachable from a
+    fresh StateDB by ANY operations, an AccountState fetched now can be modified through all its
+    setters without any effect on the block state until it is put. *)
+Theorem C12_fresh_handle_mutation_invisible : forall t sa sv ops d a d1 o d2,
+  run (sdb_new t sa sv) ops = Ok d -> step d (OAGet a) = Ok d1 ->
+  (exists v, o = OAAdd (length (d_ah d)) v \/ o = OASub (length (d_ah d)) v \/ exists x, o = OASetF (length (d_ah d)) x v) ->
+  step d1 o = Ok d2 ->
+  d_buf d2 = d_buf d /\ d_cache d2 = d_cache d /\ d_heap d2 = d_heap d /\
+  d_trie d2 = d_trie d /\ d_store_a d2 = d_store_a d /\ d_store_v d2 = d_store_v d /\
+  (forall b, get_state d2 b = get_state d b).
+Proof. exact fresh_handle_mutation_invisible. Qed.
+Print Assumptions C12_fresh_handle_mutation_invisible.
 
 (** After PutState the handle aliases the buffered entry: a later Add/SubBalance is visible
     without PutState and is not undone by a revert (known finding C12:mutate-after-put). *)
